@@ -173,7 +173,16 @@ func init() {
 							body = append([]byte{0x08, 0x2a, 0x17}, body...) // a code field, then an illegal tag
 						}
 						if cd == protocol.CodecJSON {
-							body = []byte(fmt.Sprintf(`{"code":%d,"msg":"msg-%d"}}`, 1000+int(status), status))
+							switch status % 4 {
+							case 0:
+								body = []byte(fmt.Sprintf(`{"code":%d,"msg":"msg-%d"}}`, 1000+int(status), status))
+							case 1: // an extra member: still a decodable error body
+								body = []byte(fmt.Sprintf(`{"code":%d,"trace_id":"abc","msg":"msg-%d"}`, 1000+int(status), status))
+							case 2: // member names in another case: encoding/json matches case-insensitively
+								body = []byte(fmt.Sprintf(`{"Code":%d,"MSG":"msg-%d"}`, 1000+int(status), status))
+							default: // the code written as text: not decodable into a number
+								body = []byte(fmt.Sprintf(`{"code":"%d","msg":"msg-%d"}`, 1000+int(status), status))
+							}
 						}
 					}
 					pc.Send(respFrame(f, status, body))
@@ -202,6 +211,10 @@ func init() {
 						t.Check(key, false, "status %d surfaced with status %d", st, lb.Status)
 					case kind == 0 && (lb.Code != uint64(1000+st) || lb.Message != fmt.Sprintf("msg-%d", st)):
 						t.Check(key, false, "status %d: code/message %d %q", st, lb.Code, lb.Message)
+					case kind == 3 && cd == protocol.CodecJSON && (st%4 == 1 || st%4 == 2) && (lb.Code != uint64(1000+st) || lb.Message != fmt.Sprintf("msg-%d", st)):
+						t.Check(key, false, "status %d, JSON error body with an extra member / other member case: code/message %d %q (the body decodes: want its code and message)", st, lb.Code, lb.Message)
+					case kind == 3 && cd == protocol.CodecJSON && (st%4 == 1 || st%4 == 2):
+						t.Check(key, true, "")
 					case kind != 0 && kind != 2 && (lb.Code != 500 || lb.Message != "unknown error, cant unmarshal body"):
 						t.Check(key, false, "status %d garbage body: code/message %d %q (want the 500 fallback)", st, lb.Code, lb.Message)
 					default:
